@@ -1,7 +1,7 @@
 CHECK = {'rule': 'rapid-generated task programs driven directly at pipservices.Runner.Run on a bootstrapped MockupApp (terminalm, commonm, ocm, pipelinem): '
          '2-10 submissions made by one driver goroutine with generated pauses, acyclic wait lists over earlier names, bodies of 1-4 commands (probe '
          'commands with a generated duration of 0-3 ms, an optional failing probe that returns an error or appends one to its scope, nested pip:run '
-         'submissions with their own wait lists), submissions that wait for an unknown name or for themselves, two context configurations (one '
+         'submissions with their own wait lists, detached submissions: a harness command that calls Runner.Run itself with the root scope / a fresh isolated child / the isolated scope of the submitter, own wait list over earlier tasks and the submitter, own body, so that the submitter can finish first and the task is registered while TasksManager.Wait is already waiting), submissions that wait for an unknown name or for themselves, two context configurations (one '
          'shared scope / one isolated-context child per task below the root scope that owns the task manager), GOMAXPROCS in {1,2,4,8}. Oracle: '
          'validity predicates over the sequence-numbered begin/end log written by the probes plus Task.Errors(): wait order, failed prerequisite => '
          'no event and task failed, per-body nesting/script order/stop at first failure, invalid submissions refused (top level and nested), valid '
@@ -25,7 +25,14 @@ CHECK = {'rule': 'rapid-generated task programs driven directly at pipservices.R
                               'refused:unknown',
                               'refused:cycle',
                               'refused:nested',
-                              'refused:scope-done']},
+                              'refused:scope-done',
+                              'detached-submission',
+                              'detached-with-wait-list',
+                              'detached-outlives-submitter',
+                              'detached-registered-while-wait-is-waiting',
+                              'detached-registered-during-wait-finishes-last',
+                              'detached-fails',
+                              'refused:detached']},
  'tiers': {'quick': [{'test': '^TestProp$', 'checks': 1200, 'shards': 8, 'timeout': 240, 'shrinktime': '60s'}],
            'thorough': [{'test': '^TestProp$', 'checks': 16000, 'shards': 16, 'timeout': 3000, 'shrinktime': '120s'}]}}
 
